@@ -292,3 +292,73 @@ func VH_C06_SignedSubsetRoundTrip() {
 		}
 	}
 }
+
+// VH_C05_C06_C10_BundleFileMutation: a b1/b2 bundle with one covered exchange (2-byte symbolic body) is honestly
+// signed and serialised; then the FILE is mutated - a single bit of the byte at position i flipped (bits 0,5,7 of
+// every 25th position in the quick tier; every bit of every 3rd position thorough), the file truncated at i, or a
+// byte inserted at i - and read back with bundle.Read: no panic; if it still reads, NewVerifier succeeds and the
+// covered exchange still verifies, then its status, header fields and decoded body are exactly the signed ones.
+func VH_C05_C06_C10_BundleFileMutation() {
+	vh.MustReach("rejected")
+	ver := []version.Version{version.VersionB2, version.VersionB1}[vh.Choose(2)]
+	body := vh.Bytes("body", 2)
+	e1 := &bundle.Exchange{bundle.Request{URL: c06URL("https://example.org/a")}, bundle.Response{Status: 200, Header: http.Header{"Content-Type": []string{"text/html"}}, Body: append([]byte{}, body...)}}
+	b := &bundle.Bundle{Version: ver, PrimaryURL: c06URL("https://example.org/a"), Exchanges: []*bundle.Exchange{e1}}
+	c06Sign(b, 0)
+	var w vh.Sink
+	_, werr := b.WriteTo(&w)
+	vh.Assume(werr == nil)
+	file := w.B
+	stride := 25
+	if vh.Tier() == 1 {
+		stride = 3
+	}
+	i := vh.Choose((len(file)+stride-1)/stride) * stride
+	var mutated []byte
+	switch vh.Choose(3) {
+	case 0:
+		masks := []byte{0x01, 0x20, 0x80}
+		if vh.Tier() == 1 {
+			masks = []byte{0x01, 0x02, 0x04, 0x08, 0x10, 0x20, 0x40, 0x80}
+		}
+		mutated = append([]byte{}, file...)
+		mutated[i] ^= masks[vh.Choose(len(masks))]
+	case 1:
+		mutated = append([]byte{}, file[:i]...)
+	case 2:
+		mutated = append([]byte{}, file[:i]...)
+		mutated = append(mutated, []byte{0x00, 'A'}[vh.Choose(2)])
+		mutated = append(mutated, file[i:]...)
+	}
+	var rb *bundle.Bundle
+	var rerr error
+	var res *VerifyExchangeResult
+	var verr error
+	var r1 *bundle.Exchange
+	p := vh.Try(func() {
+		rb, rerr = bundle.Read(bytes.NewReader(mutated))
+		if rerr != nil || rb.Signatures == nil {
+			return
+		}
+		v, nerr := NewVerifier(rb.Signatures, time.Unix(c06Date+5, 0), rb.Version)
+		if nerr != nil {
+			verr = nerr
+			return
+		}
+		for _, e := range rb.Exchanges {
+			if e.Request.URL.String() == "https://example.org/a" {
+				r1 = e
+			}
+		}
+		if r1 != nil {
+			res, verr = v.VerifyExchange(r1)
+		}
+	})
+	vh.Assert(!p, "reading and verifying a mutated bundle file does not panic")
+	if p || rerr != nil || verr != nil || res == nil || r1 == nil {
+		vh.Reach("rejected")
+		return
+	}
+	vh.Assert(bytes.Equal(res.VerifiedPayload, body), "still verifies => the body handed back is the signed one")
+	vh.Assert(r1.Response.Status == 200 && len(r1.Response.Header) == len(e1.Response.Header) && r1.Response.Header.Get("Content-Type") == "text/html" && r1.Response.Header.Get("Digest") == e1.Response.Header.Get("Digest"), "still verifies => status and header fields are the signed ones")
+}
